@@ -5,6 +5,7 @@
 import TemporalModel.Props.C13
 import TemporalModel.Props.C06
 import TemporalModel.Props.C07
+import TemporalModel.Lemmas.RelZonedLemmas
 namespace TemporalModel
 open ZoneSpec
 
@@ -166,6 +167,128 @@ theorem C14_hours_in_day (tz : TZ) (ns : Int) (wallDt : IsoDateTime) (t0 t1 : In
   rw [if_neg (by omega)]
   rfl
 
+/-! ### Rounding relative to a zoned date-time -/
+
+theorem round_multiple (x q : Int) (mode : RMode) (hq : 0 < q) : RoundI128.round x q mode % q = 0 := by
+  rcases C07_result_is_neighbour x q mode hq with h | h <;> rw [h] <;> unfold lowerMultiple
+  · exact Int.mul_emod_right q (x / q)
+  · rw [Int.add_emod, Int.mul_emod_right, Int.emod_self]; rfl
+
+/-- **C14 (rounding a time unit relative to a zoned date-time — NudgeToZonedTime).** Let `s` be the receiver moved by
+the duration's date part and `e` one more day in the duration's direction, both resolved in the zone (so `e - s` is
+the real length of that local day: 23, 24, 25 h or whatever the rules make it). Whenever the step succeeds:
+ * the time part of the result is a multiple of the rounding step;
+ * the days grow by one (in the duration's direction) exactly when the rounded time reaches the end of that local
+   day, and then the time part is the rounded *excess over the day's real length*, otherwise it is the rounded time;
+ * the instant reported for the result is the bracket end it is measured from plus the time part — what `add` maps the
+   receiver to;
+ * that instant is less than two rounding steps from the exact destination `s + norm`, and less than one step when the
+   day was not overrun or its length is a whole number of steps. -/
+theorem C14_zoned_time_rounding (tz : TZ) (sign : Int) (dt : IsoDateTime) (date : Dur) (norm : Int) (o : Resolved)
+    (len : Nat) (s e : Int) (r : NudgeRecord)
+    (hlen : o.smallest.asNanoseconds = some len) (hl : 0 < len) (hinc : 0 < o.increment)
+    (hb : zonedDayBracket tz sign dt date = .ok (s, e))
+    (h : nudgeToZonedTime tz sign dt date norm o = .ok r) :
+    let q := (len : Int) * o.increment
+    let rounded := roundSpec norm q o.mode
+    r.norm % q = 0 ∧
+    (r.expanded = true ↔ intSign (rounded - (e - s)) ≠ -sign) ∧
+    (r.expanded = true → r.norm = roundSpec (rounded - (e - s)) q o.mode ∧
+        r.date = dateDur date.years date.months date.weeks (date.days + sign) ∧ r.nudgeEpochNs = e + r.norm) ∧
+    (r.expanded = false → r.norm = rounded ∧
+        r.date = dateDur date.years date.months date.weeks date.days ∧ r.nudgeEpochNs = s + r.norm) ∧
+    (-(2 * q) < r.nudgeEpochNs - (s + norm) ∧ r.nudgeEpochNs - (s + norm) < 2 * q) ∧
+    ((r.expanded = false ∨ (e - s) % q = 0) →
+        -q < r.nudgeEpochNs - (s + norm) ∧ r.nudgeEpochNs - (s + norm) < q) := by
+  have hq : 0 < (len : Int) * o.increment := Int.mul_pos (by omega) hinc
+  intro q rounded
+  unfold nudgeToZonedTime at h
+  simp only [hb, Out.bind_ok, hlen] at h
+  obtain ⟨span, h1, h⟩ := Out.bind_eq_ok h
+  obtain ⟨rfl, _⟩ := normChecked_eq_ok (by simpa [nsDifference] using h1)
+  obtain ⟨rd, h2, h⟩ := Out.bind_eq_ok h
+  obtain ⟨rfl, _⟩ := normChecked_eq_ok h2
+  obtain ⟨bd, h3, h⟩ := Out.bind_eq_ok h
+  obtain ⟨rfl, _⟩ := normChecked_eq_ok h3
+  rw [C07_round_eq_spec _ _ _ hq] at h
+  have hr : roundSpec norm ((len : Int) * o.increment) o.mode = rounded := rfl
+  rw [hr] at h
+  have hw1 := C07_within_increment norm q o.mode hq
+  rw [C07_round_eq_spec _ _ _ hq] at hw1
+  have hm1 : rounded % q = 0 := by
+    have := round_multiple norm q o.mode hq; rwa [C07_round_eq_spec _ _ _ hq] at this
+  by_cases hc : intSign (rounded - (e - s)) ≠ -sign
+  · rw [if_pos hc] at h
+    obtain ⟨rd', h4, h⟩ := Out.bind_eq_ok h
+    obtain ⟨rfl, _⟩ := normChecked_eq_ok h4
+    obtain ⟨ng, h5, h⟩ := Out.bind_eq_ok h
+    obtain ⟨rfl, _⟩ := normChecked_eq_ok h5
+    obtain ⟨d, h6, h⟩ := Out.bind_eq_ok h
+    have hd := durNew_eq_ok h6
+    subst hd
+    split at h
+    · cases h
+    · cases h
+      have hw2 := C07_within_increment (rounded - (e - s)) q o.mode hq
+      have hm2 := round_multiple (rounded - (e - s)) q o.mode hq
+      rw [C07_round_eq_spec _ _ _ hq] at hw2 hm2 ⊢
+      dsimp only
+      refine ⟨hm2, ⟨fun _ => hc, fun _ => rfl⟩, fun _ => ⟨rfl, rfl, by omega⟩, ?_, by omega, ?_⟩
+      · intro hh; cases hh
+      · intro hh
+        rcases hh with hh | hh
+        · cases hh
+        · -- the day's length is a whole number of steps: the excess is already a multiple, rounding leaves it alone
+          have hz : (rounded - (e - s)) % q = 0 := by
+            rw [Int.sub_emod, hm1, hh]; rfl
+          obtain ⟨k, hk⟩ := Int.dvd_of_emod_eq_zero hz
+          have hfix := C07_multiple_fixed k q o.mode hq
+          rw [C07_round_eq_spec _ _ _ hq, ← hk] at hfix
+          rw [hfix]; omega
+  · rw [if_neg hc] at h
+    obtain ⟨ng, h5, h⟩ := Out.bind_eq_ok h
+    obtain ⟨rfl, _⟩ := normChecked_eq_ok h5
+    obtain ⟨d, h6, h⟩ := Out.bind_eq_ok h
+    have hd := durNew_eq_ok h6
+    subst hd
+    split at h
+    · cases h
+    · cases h
+      dsimp only
+      refine ⟨hm1, ⟨?_, fun hh => absurd hh hc⟩, ?_, fun _ => ⟨rfl, rfl, by omega⟩, by omega, fun _ => by omega⟩
+      · intro hh; cases hh
+      · intro hh; cases hh
+
+/-- Non-vacuity: in a zone at UTC, 23 h 59 min after midnight rounded to hours overruns the day — one day, no time. -/
+example : (nudgeToZonedTime (.offset 0) 1 ⟨⟨1970, 1, 1⟩, IsoTime.midnight⟩ Dur.zero 86340000000000
+    ⟨.day, .hour, 1, .halfExpand⟩).map (fun r => (r.date, r.norm, r.nudgeEpochNs, r.expanded)) =
+    .ok (dateDur 0 0 0 1, 0, 86400000000000, true) := by decide +kernel
+/-- … and on a 23-hour day (one hour skipped at 02:00 local) 22 h 40 min rounds to the whole day. -/
+example : (nudgeToZonedTime (.named ⟨0, [(7200, 3600)]⟩) 1 ⟨⟨1970, 1, 1⟩, IsoTime.midnight⟩ Dur.zero 81600000000000
+    ⟨.day, .hour, 1, .halfExpand⟩).map (fun r => (r.date, r.norm, r.nudgeEpochNs, r.expanded)) =
+    .ok (dateDur 0 0 0 1, 0, 82800000000000, true) := by decide +kernel
+
+/-- **C14 (compare relative to a zoned date-time).** Two different durations, at least one with a date unit, are
+ordered as the instants `add` maps the reference to (wall-clock for the date parts, exact for the time parts). -/
+theorem C14_compare_zoned_orders_destinations (a b : Dur) (tz : TZ) (ns x y : Int) (hne : a ≠ b)
+    (hd : a.defaultLargestUnit.isTimeUnit = false ∨ b.defaultLargestUnit.isTimeUnit = false)
+    (hx : zdtAdd tz ns a .constrain = .ok x) (hy : zdtAdd tz ns b .constrain = .ok y) :
+    Dur.compareRelZoned a b tz ns = .ok (if x < y then -1 else if x > y then 1 else 0) := by
+  unfold Dur.compareRelZoned
+  rw [if_neg hne]
+  have : (!a.defaultLargestUnit.isTimeUnit) = true ∨ (!b.defaultLargestUnit.isTimeUnit) = true := by
+    rcases hd with h | h <;> simp [h]
+  simp only [this, if_true, hx, hy, Out.bind_ok]
+  rfl
+
+/-- **C14 / C08 (one machinery).** Without a zone the zone-parametrised rounding and totalling steps are literally the
+plain-date ones of C08: every C08 theorem applies to them, and a zone changes only how wall-clock readings become
+instants (`toNsIn`). -/
+theorem C14_relative_without_zone (date : Dur) (norm destNs : Int) (dt : IsoDateTime) (o : Resolved) (u : TUnit) :
+    roundRelativeDurationZ none date norm destNs dt o = roundRelativeDuration date norm destNs dt o ∧
+    totalRelativeDurationZ none date norm destNs dt u = totalRelativeDuration date norm destNs dt u :=
+  ⟨roundRelativeDurationZ_none date norm destNs dt o, totalRelativeDurationZ_none date norm destNs dt u⟩
+
 end TemporalModel
 
 #print axioms TemporalModel.C14_add_time_exact
@@ -174,3 +297,6 @@ end TemporalModel
 #print axioms TemporalModel.C14_start_of_day_first
 #print axioms TemporalModel.C14_start_of_day_gap
 #print axioms TemporalModel.C14_hours_in_day
+#print axioms TemporalModel.C14_zoned_time_rounding
+#print axioms TemporalModel.C14_relative_without_zone
+#print axioms TemporalModel.C14_compare_zoned_orders_destinations
